@@ -25,6 +25,7 @@ pub const FAMILIES: &[(&str, u64)] = &[
     ("many-excl", 1),
     ("many-excl-hints", 1),
     ("many-soft-hints", 1),
+    ("union-conf-hints", 2),
     ("many-cand-soft", 1),
     ("many-cand-soft-hints", 1),
     ("huge-hints", 1),
